@@ -5,3 +5,4 @@ import TensoraVerif.Props.C09
 import TensoraVerif.Model.IR
 import TensoraVerif.Model.Machine
 import TensoraVerif.Model.IRWire
+import TensoraVerif.Model.FloatLaws
